@@ -26,17 +26,15 @@ theorem nand2_spec (aw rw a b : Nat) (h : rw ≤ aw ∨ a < 2 ^ aw) : Lib.nand2 
       · simp [h1, h2, testBit_false_of_lt h (by omega : aw ≤ i)]
   · simp [h1]
 
-theorem nor2_spec (aw rw a b : Nat) (h : rw ≤ aw ∨ (a < 2 ^ aw ∧ b < 2 ^ aw)) : Lib.nor2 aw rw a b = LSpec.norN rw [a, b] := by
+/-- Nor2(a, b, r): EVERY combination of widths, every input.  Before /repo commit aa5aa9b (`Mid` sized by `a`) the statement
+    needed `rw ≤ aw ∨ (a < 2 ^ aw ∧ b < 2 ^ aw)` and the negative fact was
+      theorem nor2_wide_counterexample : Lib.nor2 2 4 0 12 = 15 ∧ LSpec.norN 4 [0, 12] = 3
+    it no longer holds, see `nor2_wide_fixed`. -/
+theorem nor2_spec (aw rw a b : Nat) : Lib.nor2 aw rw a b = LSpec.norN rw [a, b] := by
   apply eq_ofBitFn
   intro i
   simp only [Lib.nor2, testBit_not1, testBit_or2]
-  by_cases h1 : i < rw
-  · by_cases h2 : i < aw
-    · simp [h1, h2]
-    · rcases h with h | h
-      · omega
-      · simp [h1, h2, testBit_false_of_lt h.1 (by omega : aw ≤ i), testBit_false_of_lt h.2 (by omega : aw ≤ i)]
-  · simp [h1]
+  by_cases h1 : i < rw <;> simp [h1]
 
 theorem testBit_xor2 (aw bw rw a b i : Nat) (ha : rw ≤ aw ∨ a < 2 ^ aw) (hb : b < 2 ^ bw) :
     (Lib.xor2 aw bw rw a b).testBit i = (decide (i < rw) && (a.testBit i ^^ b.testBit i)) := by
@@ -114,7 +112,7 @@ theorem xorN_spec (rw : Nat) (ins : List (Nat × Nat)) (hlen : 2 ≤ ins.length)
     · simp [h1]
 
 /-- Nor(ins, r): every arity ≥ 1, EVERY combination of input and result widths.
-    Before /repo commit 5a57ad0 `Mid` had the width `w0` of the first input and the statement needed
+    Before /repo commit 99fa1f2 `Mid` had the width `w0` of the first input and the statement needed
     `rw ≤ w0 ∨ ∀ x ∈ ins, x < 2 ^ w0`; outside it (former witness: inputs of 6,7,8,4 bits = 41,54,127,1, `r` 8 bits) the result
     was 192 instead of 128, see `norN_wide_fixed`. -/
 theorem norN_spec (rw : Nat) (ins : List Nat) (hne : ins ≠ []) : Lib.norN rw ins = LSpec.norN rw ins := by
@@ -126,9 +124,8 @@ theorem norN_spec (rw : Nat) (ins : List Nat) (hne : ins ≠ []) : Lib.norN rw i
 /-- the former witness of the repaired defect C08-nor-wide now gives `~(a0|a1|a2|a3) mod 2^8` -/
 theorem norN_wide_fixed : Lib.norN 8 [41, 54, 127, 1] = 128 ∧ LSpec.norN 8 [41, 54, 127, 1] = 128 := by decide
 
-/-- Nor2 still sizes `Mid` by operand `a`: with `b` and `r` wider than `a` the upper bits of `b` are dropped before the Not.
-    `nor2_spec` carries the forced hypothesis; this is the negative on a concrete input (expected `~(0|12) mod 16 = 3`). -/
-theorem nor2_wide_counterexample : Lib.nor2 2 4 0 12 = 15 ∧ LSpec.norN 4 [0, 12] = 3 := by decide
+/-- the former witness of the repaired defect C08-nor2-wide (a: 2 bits, b and r: 4 bits) now gives `~(0|12) mod 16` -/
+theorem nor2_wide_fixed : Lib.nor2 2 4 0 12 = 3 ∧ LSpec.norN 4 [0, 12] = 3 := by decide
 
 
 theorem b2n_eq_toNat (t : Bool) : b2n t = t.toNat := by cases t <;> rfl
